@@ -13,6 +13,13 @@ def run(chk):
                          'does so under a guard on the other operand or on the result: the checker types `Nat + Int` through Int.__add__ (Nat <: Int) but Python dispatches to Nat.__add__')
     n = c26.sign_rules(chk, fx, 'C02-sign')
     chk.floor('declared numeric operator rows', n, 20)
+    nd = wrap_rules(chk, 'C02-wrap')
+    chk.floor('narrowing dunders', nd, 2)
+    return ('Sign-interval abstraction of Python arithmetic applied to the declared operator table, and a guard rule over the binary dunders of the value-constrained runtime classes '
+            '(python ast). Decides the "value-constraint error raised by Erg\'s runtime classes" clause only; TypeError/AttributeError/NameError freedom is soundness of the whole checker.'), {}
+
+
+def wrap_rules(chk, RULE):
     classes = OT.runtime_classes()
     cons = OT.constrained_classes(classes)
     chk.floor('value-constrained runtime classes', len(cons), 2)
@@ -34,18 +41,16 @@ def run(chk):
             # can Python's result be negative when this class meets an Int / Float operand?
             base = 'Nat'
             if not any(OT.result(op, base, o)[1] if not mname.startswith('__r') else OT.result(op, o, base)[1] for o in ('Int', 'Float')):
-                chk.ok('C02-wrap', ('%s.%s' % (cname, mname), 'sign-closed'))
+                chk.ok(RULE, ('%s.%s' % (cname, mname), 'sign-closed'))
                 continue
             nd += 1
             inst = '%s.%s' % (cname, mname)
             if guard_covers(fdef, cname):
-                chk.ok('C02-wrap', inst, sample='%s narrows to %s under a guard' % (inst, narrowing[0]))
+                chk.ok(RULE, inst, sample='%s narrows to %s under a guard' % (inst, narrowing[0]))
             else:
-                chk.bad('C02-wrap', inst, 'unguarded->%s' % narrowing[0], '%s wraps its result in %s (constructor constraint `%s`) without testing the other operand or the result: '
+                chk.bad(RULE, inst, 'unguarded->%s' % narrowing[0], '%s wraps its result in %s (constructor constraint `%s`) without testing the other operand or the result: '
                         'a well-typed `%s op Int` with a negative right operand raises ValueError' % (inst, narrowing[0], cons[cname], cname), c['file'], fdef.lineno)
-    chk.floor('narrowing dunders', nd, 2)
-    return ('Sign-interval abstraction of Python arithmetic applied to the declared operator table, and a guard rule over the binary dunders of the value-constrained runtime classes '
-            '(python ast). Decides the "value-constraint error raised by Erg\'s runtime classes" clause only; TypeError/AttributeError/NameError freedom is soundness of the whole checker.'), {}
+    return nd
 
 
 def wrapped_anywhere(fdef):
